@@ -151,27 +151,32 @@ end sparse
 /-! ## (b) spatial algebra kernels (generated from engine_util_spatial.c / engine_inline.h) -/
 
 
-/-- 6D dot product -/
+/-- 6D dot product (specification side) -/
 def dot6 (a b : ℝ × ℝ × ℝ × ℝ × ℝ × ℝ) : ℝ :=
   a.1 * b.1 + a.2.1 * b.2.1 + a.2.2.1 * b.2.2.1 + a.2.2.2.1 * b.2.2.2.1 + a.2.2.2.2.1 * b.2.2.2.2.1 +
     a.2.2.2.2.2 * b.2.2.2.2.2
 
+/-- `mju_crossForce(v, ·)` is minus the transpose of `mju_crossMotion(v, ·)`: `⟨v ×ₘ w, f⟩ = −⟨w, v ×f f⟩` -/
 theorem crossForce_dual_crossMotion (v0 v1 v2 v3 v4 v5 w0 w1 w2 w3 w4 w5 f0 f1 f2 f3 f4 f5 : ℝ) :
     dot6 (mju_crossMotion v0 v1 v2 v3 v4 v5 w0 w1 w2 w3 w4 w5) (f0, f1, f2, f3, f4, f5) =
       - dot6 (w0, w1, w2, w3, w4, w5) (mju_crossForce v0 v1 v2 v3 v4 v5 f0 f1 f2 f3 f4 f5) := by
   simp only [mju_crossMotion, mju_crossForce, dot6]
   ring
 
+/-- the inline copy used by `mj_rne` is the same function as `mju_crossForce` -/
 theorem mji_crossForce_eq (v0 v1 v2 v3 v4 v5 f0 f1 f2 f3 f4 f5 : ℝ) :
     mji_crossForce v0 v1 v2 v3 v4 v5 f0 f1 f2 f3 f4 f5 = mju_crossForce v0 v1 v2 v3 v4 v5 f0 f1 f2 f3 f4 f5 := rfl
 
+/-- the inline copy used by `mj_comVel` / `mj_jacDot` is the same function as `mju_crossMotion` -/
 theorem mji_crossMotion_eq (v0 v1 v2 v3 v4 v5 f0 f1 f2 f3 f4 f5 : ℝ) :
     mji_crossMotion v0 v1 v2 v3 v4 v5 f0 f1 f2 f3 f4 f5 = mju_crossMotion v0 v1 v2 v3 v4 v5 f0 f1 f2 f3 f4 f5 := rfl
 
+/-- `mji_dot6` (pairwise summation order of `mju_dot`) is the 6D dot product over ℝ -/
 theorem mji_dot6_eq (a0 a1 a2 a3 a4 a5 b0 b1 b2 b3 b4 b5 : ℝ) :
     mji_dot6 a0 a1 a2 a3 a4 a5 b0 b1 b2 b3 b4 b5 = dot6 (a0, a1, a2, a3, a4, a5) (b0, b1, b2, b3, b4, b5) := by
   simp only [mji_dot6, dot6]; ring
 
+/-- `v ×ₘ v = 0` (why `mj_comVel` may use the velocity before or after the joint for `cdof_dot`) -/
 theorem crossMotion_self (v0 v1 v2 v3 v4 v5 : ℝ) :
     mju_crossMotion v0 v1 v2 v3 v4 v5 v0 v1 v2 v3 v4 v5 = (0, 0, 0, 0, 0, 0) := by
   simp only [mju_crossMotion, Prod.mk.injEq]
@@ -219,6 +224,7 @@ section psd
 variable {ι : Type} [Fintype ι] {n : Nat}
 
 
+/-- `Σ_b J_bᵀ I_b J_b + diag(armature)` is positive semidefinite when every `I_b` is and `armature ≥ 0` -/
 theorem sum_congruence_psd (J : ι → Matrix (Fin 6) (Fin n) ℝ) (I : ι → Matrix (Fin 6) (Fin 6) ℝ)
     (arm : Fin n → ℝ) (hI : ∀ b, (I b).PosSemidef) (ha : ∀ i, 0 ≤ arm i) :
     (∑ b, (J b)ᵀ * I b * J b + Matrix.diagonal arm).PosSemidef := by
@@ -229,6 +235,7 @@ theorem sum_congruence_psd (J : ι → Matrix (Fin 6) (Fin n) ℝ) (I : ι → M
     simpa using this
   · exact PosSemidef.diagonal ha
 
+/-- its quadratic form: `xᵀ M x = Σ_b (J_b x)ᵀ I_b (J_b x) + Σ_i armature_i x_i²` -/
 theorem quad_form (J : ι → Matrix (Fin 6) (Fin n) ℝ) (I : ι → Matrix (Fin 6) (Fin 6) ℝ)
     (arm : Fin n → ℝ) (x : Fin n → ℝ) :
     star x ⬝ᵥ ((∑ b, (J b)ᵀ * I b * J b + Matrix.diagonal arm) *ᵥ x) =
@@ -242,6 +249,8 @@ theorem quad_form (J : ι → Matrix (Fin 6) (Fin n) ℝ) (I : ι → Matrix (Fi
   · simp [dotProduct, mulVec_diagonal, pow_two]
     apply Finset.sum_congr rfl; intro i _; ring
 
+/-- … and positive definite when every `I_b` is positive definite, `armature ≥ 0`, and every non-zero `x` is either
+moved by some body (`J_b x ≠ 0`) or has a component with positive armature -/
 theorem sum_congruence_pd (J : ι → Matrix (Fin 6) (Fin n) ℝ) (I : ι → Matrix (Fin 6) (Fin 6) ℝ)
     (arm : Fin n → ℝ) (hI : ∀ b, (I b).PosDef) (ha : ∀ i, 0 ≤ arm i)
     (hfull : ∀ v : Fin n → ℝ, v ≠ 0 → (∃ b, J b *ᵥ v ≠ 0) ∨ (∃ i, 0 < arm i ∧ v i ≠ 0)) :
